@@ -112,10 +112,14 @@ def _job(job) -> List[Dict[str, Any]]:
     stack_depth = None
     kernel_calls = []
     open_calls = []
+    def in_rate(ev) -> bool:
+        # made by rate itself: the stack is <harness>, rate and possibly comprehension frames of rate (same label)
+        return ev.func.endswith(".rate") and len(ev.stack) >= 2 and all(lbl == ev.stack[1] for lbl in ev.stack[1:])
+
     for i, ev in enumerate(evs):
-        if ev.kind == "call" and ev.func.endswith(".rate") and len(ev.stack) == 2:
+        if ev.kind == "call" and in_rate(ev):
             open_calls.append([ev, False])
-        elif ev.kind == "return" and ev.func.endswith(".rate") and len(ev.stack) == 2 and open_calls:
+        elif ev.kind == "return" and in_rate(ev) and open_calls:
             c = open_calls.pop()
             if c[1]:
                 kernel_calls.append(c[0])
